@@ -386,7 +386,9 @@ def check_eval(ctx):
         for k in range(per_span):
             names = rng.choice([['X', 'Y'], ['X', 'Y', 'Z'], ['x1', 'H_h'], ['lagged', 'X'], ['X', 'exp1', 'Yd'],
                                 # variables named like members of the container (a property, methods) are variables all the same
-                                ['size', 'copy'], ['values', 'X', 'reindex']])
+                                ['size', 'copy'], ['values', 'X', 'reindex'],
+                                # identifiers beyond ASCII (Greek letters, accents) are identifiers all the same
+                                ['α', 'ΔY', 'X'], ['été', 'β_1']])
             helper_names = ['lag', 'lead', 'diff', 'dlog', 'exp', 'log']
             c, data = make_container(spec, names, rng)
             g = G(rng, spec, names, helper_names)
